@@ -224,7 +224,7 @@ def main_on(data, projdir):
         pending = None
         try:
             for k, cls in enumerate(job['seq'], 1):
-                big = job.get('big', 0) if rng.random() < 0.25 else 0
+                big = job.get('big', 0) if rng.random() < 0.6 else 0
                 name, args, kwargs, has_local = make_request(cls, k, rng, projdir, corpus, big)
                 if cls == 'api' and pending is not None:
                     # a project file changes on disk and the SAME request is sent again: the reply follows the disk
